@@ -125,6 +125,9 @@ def r15(ctx, lib):
     follow, nofollow, on_target = [], [], False
     for bi, t, sl in decisions:
         for c in sl.calls:
+            # the test of the target itself, not of one of its ancestors (those are directories to be, and links to directories are fine there)
+            if backslice(b, c.args[:1]).has_call(r'path::Path::parent$'):
+                continue
             if c.matches(EXIST_NOFOLLOW):
                 nofollow.append(c)
             elif c.matches(EXIST_FOLLOW):
